@@ -45,6 +45,7 @@ For optimization use MILP. For heavier constraint logic, see Z3.
 from typing import Any
 
 from solvor.types import Result, Status
+from solvor.utils.helpers import recursion_limit
 
 __all__ = ["Model"]
 
@@ -157,29 +158,29 @@ def _linearize(left, right):
     terms: dict[str, list] = {}
     const = 0
 
-    def visit(e, mult):
-        nonlocal const
+    # Explicit stack instead of recursion: a sum of n terms is a tree n operators deep
+    stack = [(right, -1), (left, 1)]
+    while stack:
+        e, mult = stack.pop()
         op = e[0] if isinstance(e, tuple) and len(e) == 3 else None
         if isinstance(e, IntVar):
             terms.setdefault(e.name, [e, 0])[1] += mult
         elif isinstance(e, int):
             const += mult * e
         elif op == "add":
-            visit(e[1], mult)
-            visit(e[2], mult)
+            stack.append((e[2], mult))
+            stack.append((e[1], mult))
         elif op == "sub":
-            visit(e[1], mult)
-            visit(e[2], -mult)
+            stack.append((e[2], -mult))
+            stack.append((e[1], mult))
         elif op == "rsub":  # (rsub, var, const) stands for const - var
-            visit(e[2], mult)
-            visit(e[1], -mult)
+            stack.append((e[1], -mult))
+            stack.append((e[2], mult))
         elif op == "mul" and isinstance(e[2], int):
-            visit(e[1], mult * e[2])
+            stack.append((e[1], mult * e[2]))
         else:
             raise ValueError(f"Unsupported expression in constraint: {e!r}")
 
-    visit(left, 1)
-    visit(right, -1)
     return [(var, coef) for var, coef in terms.values() if coef != 0], const
 
 
@@ -348,7 +349,8 @@ class Model:
 
             return False
 
-        backtrack(domains)
+        with recursion_limit(len(domains) + 2):  # one frame per open variable
+            backtrack(domains)
 
         if not solutions:
             return Result(None, 0, iterations[0], 0, Status.INFEASIBLE)
